@@ -259,3 +259,23 @@ class SegSocket(socket.socket):
         self._pos += k
         self.recv_log.append(k)
         return data
+
+
+class ReadableSegSocket(SegSocket):
+    """
+    A socket kind that ALSO has file-like methods of its own (as ssl.SSLSocket has read() / write()):
+    its read(n) returns at most one received segment -- short, like a TLS record -- so whoever reads
+    frames through it directly, without the library's wrapper, gets short reads.  recv() is unchanged.
+    """
+
+    def read(self, num=1024, buffer=None):  # pylint: disable=unused-argument
+        return self.recv(num)
+
+    def readline(self, limit=-1):  # pylint: disable=unused-argument
+        out = b""
+        while not out.endswith(b"\n"):
+            d = self.recv(1)
+            if not d:
+                break
+            out += d
+        return out
